@@ -42,14 +42,15 @@ pub fn run(o: &Opts) {
       let dir = fresh_dir(&o.out, &format!("e_{lang}_{round}"));
       let srcs = corpus::clean_sources(lang, &mut rng, 1, 500);
       let Some(src) = srcs.first().cloned() else { continue };
-      let src = if round % 4 == 3 && matches!(lang, SupportLang::TypeScript | SupportLang::JavaScript) { format!("{src}\nvar o = {{ b: 123, c: 4, }};\nvar cafééé日本 = {{ b: 123, \"ü\": 4, c: 5, }};\n") } else { src };
+      let src = if round % 4 == 3 && matches!(lang, SupportLang::TypeScript | SupportLang::JavaScript) { format!("{src}\nvar o = {{ b: 123, c: 4, }};\nvar cafééé日本 = {{ b: 123, \"ü\": 4, c: 5, }};\nvar tight = {{a:1,b:2,c:3,}};\n") } else { src };
       let g = corpus::parse(lang, &src);
       let nodes = corpus::all_nodes(g.root());
       let ing = harvest(lang, &nodes, &mut rng);
       // one fix rule: string / object form, with and without expansions, patterns that leave trailing punctuation out
       let mut frs = gen_fix_rules(&mut rng, lang, &ing.patterns, 1);
       if round % 4 == 3 && matches!(lang, SupportLang::TypeScript | SupportLang::JavaScript) {
-        // a fix whose template reproduces the matched node while the expansion widens the replaced range
+        // (the last line has no blank between the pairs: the replaced ranges of neighbouring matches TOUCH)
+      // a fix whose template reproduces the matched node while the expansion widens the replaced range
         // (the rule captures the whole node in $P and the template is just $P: the replacement equals the node's text)
         frs = vec![crate::c18::FixRule { yaml: format!("id: fx0\nlanguage: {lang}\nmessage: fix 0\nrule:\n  kind: pair\n  pattern: $P\nfix:\n  template: $P\n  expandEnd: {{regex: '^,$'}}\n"), expands: true }];
       }
